@@ -47,6 +47,22 @@ fn cases(thorough: bool) -> Vec<Big> {
         Big { name: "Erf", op: "Erf", attrs: vec![], inputs: vec![vec![n]], axes: None, opset: 17 },
         Big { name: "Transpose", op: "Transpose", attrs: vec![("perm", Attr::Ints(vec![1, 0]))], inputs: vec![vec![1024, n / 1024]], axes: None, opset: 17 },
     ];
+    // Contractions over several labels at once, and reductions expressed as Einsum.
+    for (name, eq, shapes) in [
+        ("Einsum-bij,bij->b", "bij,bij->b", vec![vec![4, 300, 200], vec![4, 300, 200]]),
+        ("Einsum-ij,ij->", "ij,ij->", vec![vec![700, 300], vec![700, 300]]),
+        ("Einsum-abf->a", "abf->a", vec![vec![3, 500, 100]]),
+        ("Einsum-bik,bkj->bij", "bik,bkj->bij", vec![vec![2, 96, 200], vec![2, 200, 64]]),
+    ] {
+        v.push(Big { name, op: "Einsum", attrs: vec![("equation", Attr::Str(eq.to_string()))], inputs: shapes, axes: None, opset: 17 });
+    }
+    // Random operators with an explicit seed are deterministic by contract (seed 0 included).
+    for (name, seed) in [("Dropout-seed0", 0i64), ("Dropout-seed7", 7)] {
+        v.push(Big { name, op: "Dropout", attrs: vec![("seed", Attr::Int(seed))], inputs: vec![vec![64, 128]], axes: None, opset: 13 });
+    }
+    for (name, op, seed) in [("RandomUniformLike-seed0", "RandomUniformLike", 0.0f32), ("RandomNormalLike-seed5", "RandomNormalLike", 5.0)] {
+        v.push(Big { name, op, attrs: vec![("seed", Attr::Float(seed))], inputs: vec![vec![32, 64]], axes: None, opset: 17 });
+    }
     // Normalisation operators take scale/bias inputs.
     v.push(Big { name: "LayerNormalization", op: "LayerNormalization", attrs: vec![("axis", Attr::Int(-1))], inputs: vec![vec![n / 2048, 2048], vec![2048], vec![2048]], axes: None, opset: 17 });
     v.push(Big { name: "InstanceNormalization", op: "InstanceNormalization", attrs: vec![], inputs: vec![vec![1, 4, n / 16], vec![4], vec![4]], axes: None, opset: 17 });
@@ -60,6 +76,13 @@ fn build(b: &Big) -> Vec<u8> {
     if let Some(ax) = &b.axes {
         inits.push(onnxpb::tensor_i64("axes", &[ax.len() as i64], ax));
         in_names.push("axes".into());
+    }
+    if b.op == "Dropout" {
+        // ratio = 0.5, training_mode = true
+        inits.push(onnxpb::tensor_f32("ratio", &[], &[0.5]));
+        inits.push(onnxpb::tensor_raw("training", onnxpb::BOOL, &[], &[1u8]));
+        in_names.push("ratio".into());
+        in_names.push("training".into());
     }
     let ins: Vec<&str> = in_names.iter().map(|s| s.as_str()).collect();
     let attrs: Vec<(&str, Attr)> = b.attrs.iter().map(|(k, v)| (*k, v.clone())).collect();
